@@ -205,6 +205,6 @@ func c06Worker(sh *explore.Shard) {
 
 func init() {
 	Registry["C06"] = &Check{Level: "exploration", Worker: c06Worker, QuickBudget: 60 * time.Second, ThoroughBudget: 25 * time.Minute,
-		Rule: "all option sequences of length <=3 (quick) / <=4 (thorough) over the option alphabet (include/exclude x prefixes cut at and off component boundaries, regexps with alternation/anchors/lazy and backtracking quantifiers, @refgroups incl. nested, rule-less and augmented built-in groups; -regexp and --refgroup spellings; every --[no-]{branches,tags,remotes,notes,stash} incl. =false) x ROOT present/absent, parsed by the real pflag + RefGroupBuilder; Categorize() of every reference of a boundary-built universe compared with an independent fold and an independent full-match regexp matcher. non-trivial = sequences of length >= 2",
+		Rule:        "all option sequences of length <=3 (quick) / <=4 (thorough) over the option alphabet (include/exclude x prefixes cut at and off component boundaries, regexps with alternation/anchors/lazy and backtracking quantifiers, @refgroups incl. nested, rule-less and augmented built-in groups; -regexp and --refgroup spellings; every --[no-]{branches,tags,remotes,notes,stash} incl. =false) x ROOT present/absent, parsed by the real pflag + RefGroupBuilder; Categorize() of every reference of a boundary-built universe compared with an independent fold and an independent full-match regexp matcher. non-trivial = sequences of length >= 2",
 		Assumptions: []string{"refgroup configuration is served by a fake Configger implementing GetConfig's documented contract (C15 owns the real parser)", "regular expressions are limited to the grammar of the reference matcher (literals . * + ? | groups \\d anchors)"}}
 }
